@@ -14,7 +14,7 @@
    FULL STATEMENT  forall kind L d, C07_holds (load kind L false d) (load kind L true d)
    is false of the faithful model (refutations below): it is proved on the stated domains. *)
 From Coq Require Import NArith ZArith List Bool.
-From PS Require Import Base.Chars Base.Outcome Model.Yaml Model.Loader Spec.LoaderSpec Proofs.LoaderP.
+From PS Require Import Base.Chars Base.Outcome Model.Yaml Model.Loader Model.CollLoader Spec.LoaderSpec Proofs.LoaderP Proofs.CollLoaderP.
 Import ListNotations.
 
 (* the executable oracle used on the implementation's output is the specification *)
@@ -101,6 +101,40 @@ Theorem C07_collect_iff :
   forall L k d errs, load L k true d = Ok errs -> collect_iff (load L k false d) errs.
 Proof. exact collect_iff_all. Qed.
 Print Assumptions C07_collect_iff.
+
+(* ---- collections: SigmaCollection.from_dicts(docs, collect_errors, None, collect_filters, resolve_references)
+        (Model/CollLoader.v: dispatch on action / kind, merging with the global and the previous rule, propagation
+        of the members' errors, filter application on placeholders, reference resolution) ---- *)
+(* full strength, no premise, every combination of collect_filters / resolve_references: whenever collecting
+   mode returns a collection, strict mode raises exactly its first error, or returns too when there is none *)
+Theorem C07_coll_collect_first_error :
+  forall L cf rr ds errs, load_coll L true cf rr ds = Ok errs ->
+    load_coll L false cf rr ds = match errs with [] => Ok [] | e :: _ => SigmaErr e end.
+Proof. exact coll_agrees. Qed.
+Print Assumptions C07_coll_collect_first_error.
+
+(* only Sigma errors escape from loading a collection, in both modes and for every flag combination, when every
+   document the loop hands to a loader (after merging with the global / previous rule) lies in that loader's domain;
+   in particular applying a filter never indexes the empty condition list of a placeholder *)
+Theorem C07_coll_sigma_only_partial :
+  forall L c cf rr ds, coll_dom ds = true -> sigma_only (load_coll L c cf rr ds).
+Proof. exact coll_sigma_only. Qed.
+Print Assumptions C07_coll_sigma_only_partial.
+
+(* collecting mode returns for collections without correlation rules whose filters are collected, not applied
+   (the way load_ruleset reads a file) *)
+Theorem C07_coll_collect_total_partial :
+  forall L rr ds, forallb item_dom_rf (plan ds) = true -> exists errs, load_coll L true true rr ds = Ok errs.
+Proof. exact coll_collect_total. Qed.
+Print Assumptions C07_coll_collect_total_partial.
+
+(* with filters applied inside the constructor it does not (finding collection-postprocessing-raises): a filter whose
+   log source is the placeholder meets a rule *)
+Theorem C07_coll_postprocessing_refuted :
+  exists L ds e, coll_dom ds = true /\ load_coll L true false true ds = SigmaErr e /\
+                 exists errs, load_coll L true true false ds = Ok errs.
+Proof. exact coll_post_refuted. Qed.
+Print Assumptions C07_coll_postprocessing_refuted.
 
 (* non-vacuity: a rule with modifier chains lies in the domain and loads without errors; the
    correlation witness of the refutation lies in corr_dom *)
